@@ -499,7 +499,7 @@ func QuoteStr(s string) string {
 	b.WriteByte('"')
 	for i := 0; i < len(s); i++ {
 		c := s[i]
-		if c >= ' ' && c <= '~' && c != '"' && c != '\\' {
+		if c >= ' ' && c <= '~' && c != '"' && c != '\\' && !(noise.EscapePrintable && (c == 'e' || c == '0' || c == ' ')) {
 			b.WriteByte(c)
 		} else {
 			fmt.Fprintf(&b, "\\%02X", c)
@@ -507,6 +507,20 @@ func QuoteStr(s string) string {
 	}
 	b.WriteByte('"')
 	return b.String()
+}
+
+// TextNoisy renders the module with the given spelling noise.
+func (m *Module) TextNoisy(n Noise) string {
+	noise = n
+	defer func() { noise = Noise{} }()
+	p := &Printer{Explicit: n.Explicit}
+	return p.Module(m)
+}
+
+func (p *Printer) comment() {
+	if noise.Comments {
+		p.w("; a comment with \"quotes\" and %%names @x !0\n\n")
+	}
 }
 
 func (p *Printer) Module(m *Module) string {
@@ -522,6 +536,7 @@ func (p *Printer) Module(m *Module) string {
 		p.w("target triple = %s\n", QuoteStr(m.Triple))
 	}
 	for _, t := range m.order() {
+		p.comment()
 		switch t.K {
 		case TopAsm:
 			p.w("module asm %s\n", QuoteStr(m.Asm[t.Idx]))
@@ -735,10 +750,17 @@ func (p *Printer) fn(f *Fun) {
 		} else if bi > 0 || p.Explicit {
 			p.w("%d:\n", p.nums[b])
 		}
-		for _, i := range b.Insts {
-			p.w("  %s\n", p.inst(i))
+		ind := "  "
+		if noise.Indent != "" {
+			ind = noise.Indent
 		}
-		p.w("  %s\n", p.inst(b.Term))
+		for _, i := range b.Insts {
+			p.w("%s%s\n", ind, p.inst(i))
+			if noise.Comments {
+				p.w("%s; trailing\n", ind)
+			}
+		}
+		p.w("%s%s\n", ind, p.inst(b.Term))
 	}
 	p.w("}\n")
 }
@@ -929,7 +951,7 @@ func (p *Printer) callTail(i *Inst) string {
 	// callee type: full function type when variadic or returning a function pointer, else return type (LLVM accepts both)
 	ft := i.FnT
 	tyS := ft.Ret.String()
-	if ft.Variadic || ft.Ret.K == Ptr && ft.Ret.Elem.K == Func || i.Callee.K == VInlineAsm && false {
+	if ft.Variadic || ft.Ret.K == Ptr && ft.Ret.Elem.K == Func || noise.FullCallType {
 		tyS = ft.String()
 	}
 	var args []string
